@@ -10,6 +10,8 @@ import IbicusModel.Lemmas.GenIsimipFreq
 #print axioms Props.C09.legacy_ls_mult_reverses
 #print axioms Props.C09.qm_param_mono_family
 #print axioms Props.C09.qm_param_mono
+#print axioms Props.C09.qm_param_mono_saturating
+#print axioms Props.C09.clipping_is_needed
 #print axioms Props.C09.qmapExtrap_mono_generic
 #print axioms Props.C09.qmapExtrap_all_pairs
 #print axioms Props.C09.qmapExtrap_kernel_density
@@ -19,15 +21,21 @@ import IbicusModel.Lemmas.GenIsimipFreq
 #print axioms Props.C09.cdft_mono_kernel_density
 #print axioms Props.C09.cdft_ssr_order
 #print axioms Props.C09.cdft_ssr_order_model
+#print axioms Props.C09.cdft_ssr_order_nonneg
 #print axioms Props.C09.step4_lower_order
 #print axioms Props.C09.step4_upper_order
 #print axioms Props.C09.step4_order
 #print axioms Props.C09.step6_mono
 #print axioms Props.C09.step6_mono_unbounded
 #print axioms Props.C09.window_mono
-#print axioms Props.C09.censored_qm_order
-#print axioms Props.C09.censored_qm_subthreshold_pair_can_invert
 #print axioms Props.C09.hurdle_qm_order
+#print axioms Props.C09.hurdle_window_order
+#print axioms Props.C09.iz_qm_order
+#print axioms Props.C09.iz_window_order
+#print axioms Props.C09.censored_qm_order
+#print axioms Props.C09.censored_window_order
+#print axioms Props.C09.censored_qm_subthreshold_pair_can_invert
+#print axioms Props.C09.fixedArgs_floc
 -- the lemmas that carry the weight (shape of step 6, every branch of the adjustment, instances of the laws)
 #print axioms Lemmas.C09.step6Full_eq
 #print axioms Lemmas.C09.step6After_shape
@@ -37,10 +45,13 @@ import IbicusModel.Lemmas.GenIsimipFreq
 #print axioms Lemmas.C09.eqLaws_hist
 #print axioms Lemmas.C09.isiLaws_tas
 #print axioms Lemmas.C09.isiLaws_hurs_uniform
+#print axioms Lemmas.C09.precipLaws_ratFam
+#print axioms Lemmas.C09.precipWindow_orderPres
 -- reused C16 / C11 laws the proofs rest on
 #print axioms Props.C16.qmapExtrap_mono
 #print axioms Props.C16.iecdf_mono
 #print axioms Props.C16.ecdf_mono
+#print axioms Props.C16.thresholdCdf_range
 #print axioms Props.C11.finalCounts_valid
 -- tier A: regenerated kernels = model
 #print axioms Lemmas.GenDebiasers.ls_apply_on_window
